@@ -229,10 +229,10 @@ Record watcher := mkW {
   w_hold : option (list event); (* processEvents: batch received from sub, not yet sent to out *)
   w_out : chan;                 (* result channel, capacity p_out *)
   (* ghost *)
-  w_got : list (list event);    (* batches the client has received *)
+  w_gotR : list (list event);   (* batches the client has received, newest first (see w_got) *)
   w_seen_close : bool;          (* the client has seen the result channel closed *)
   w_base : nat;                 (* number of events the hub had fanned out when AddWatcher ran *)
-  w_in : list event;            (* every event ever put into w_sub *)
+  w_inR : list event;           (* every event ever put into w_sub, newest first (see w_in) *)
   w_catch : list event;         (* events sent by catchUpEvents *)
   w_snap : list event;          (* ring window seen by FindEvents *)
   w_dropped : bool;             (* Stream found the buffer full at least once *)
@@ -248,10 +248,16 @@ Record sys := mkSys {
   s_ws : list watcher;
   s_panic : bool;
   (* ghost *)
-  s_cached : list event;        (* every event ever added to the cache, in order *)
-  s_hub : list event;           (* concatenation of the items Stream has fanned out *)
+  s_cachedR : list event;       (* every event ever added to the cache, newest first (see s_cached) *)
+  s_hubR : list event;          (* the items Stream has fanned out, concatenated, newest first (see s_hub) *)
   s_spawned : list nat          (* watchers for which Stream spawned a deleter, in spawn order *)
 }.
+
+(* the ghost logs are kept newest-first so that a step costs O(1); these are the logs in order *)
+Definition w_got (w : watcher) : list (list event) := rev (w_gotR w).
+Definition w_in (w : watcher) : list event := rev (w_inR w).
+Definition s_cached (s : sys) : list event := rev (s_cachedR s).
+Definition s_hub (s : sys) : list event := rev (s_hubR s).
 
 Definition init (l : N) (c0 : N) : sys := mkSys c0 None [] (new_ring l) [] [] false [] [] [].
 
@@ -273,26 +279,26 @@ Inductive label :=
 
 Definition w_set_phase (w : watcher) (x : phase) : watcher :=
   mkW (w_S w) (w_P w) x (w_reg w) (w_sub w) (w_delpend w) (w_ctx w) (w_ctxdone w) (w_filter w) (w_hold w)
-      (w_out w) (w_got w) (w_seen_close w) (w_base w) (w_in w) (w_catch w) (w_snap w) (w_dropped w) (w_gap w).
+      (w_out w) (w_gotR w) (w_seen_close w) (w_base w) (w_inR w) (w_catch w) (w_snap w) (w_dropped w) (w_gap w).
 Definition w_set_ctx (w : watcher) (x : bool) : watcher :=
   mkW (w_S w) (w_P w) (w_phase w) (w_reg w) (w_sub w) (w_delpend w) x (w_ctxdone w) (w_filter w) (w_hold w)
-      (w_out w) (w_got w) (w_seen_close w) (w_base w) (w_in w) (w_catch w) (w_snap w) (w_dropped w) (w_gap w).
+      (w_out w) (w_gotR w) (w_seen_close w) (w_base w) (w_inR w) (w_catch w) (w_snap w) (w_dropped w) (w_gap w).
 Definition w_set_hub (w : watcher) (reg : bool) (sub : chan) (dp : nat) (ctxdone : bool) : watcher :=
   mkW (w_S w) (w_P w) (w_phase w) reg sub dp (w_ctx w) ctxdone (w_filter w) (w_hold w)
-      (w_out w) (w_got w) (w_seen_close w) (w_base w) (w_in w) (w_catch w) (w_snap w) (w_dropped w) (w_gap w).
+      (w_out w) (w_gotR w) (w_seen_close w) (w_base w) (w_inR w) (w_catch w) (w_snap w) (w_dropped w) (w_gap w).
 Definition w_set_pipe (w : watcher) (sub : chan) (hold : option (list event)) (out : chan) : watcher :=
   mkW (w_S w) (w_P w) (w_phase w) (w_reg w) sub (w_delpend w) (w_ctx w) (w_ctxdone w) (w_filter w) hold
-      out (w_got w) (w_seen_close w) (w_base w) (w_in w) (w_catch w) (w_snap w) (w_dropped w) (w_gap w).
+      out (w_gotR w) (w_seen_close w) (w_base w) (w_inR w) (w_catch w) (w_snap w) (w_dropped w) (w_gap w).
 Definition w_set_client (w : watcher) (out : chan) (got : list (list event)) (seen : bool) : watcher :=
   mkW (w_S w) (w_P w) (w_phase w) (w_reg w) (w_sub w) (w_delpend w) (w_ctx w) (w_ctxdone w) (w_filter w) (w_hold w)
-      out got seen (w_base w) (w_in w) (w_catch w) (w_snap w) (w_dropped w) (w_gap w).
+      out got seen (w_base w) (w_inR w) (w_catch w) (w_snap w) (w_dropped w) (w_gap w).
 
 Definition s_set_ws (s : sys) (ws : list watcher) : sys :=
   mkSys (s_committed s) (s_cur s) (s_pending s) (s_cache s) (s_wchan s) ws (s_panic s)
-        (s_cached s) (s_hub s) (s_spawned s).
+        (s_cachedR s) (s_hubR s) (s_spawned s).
 Definition s_set_panic (s : sys) : sys :=
   mkSys (s_committed s) (s_cur s) (s_pending s) (s_cache s) (s_wchan s) (s_ws s) true
-        (s_cached s) (s_hub s) (s_spawned s).
+        (s_cachedR s) (s_hubR s) (s_spawned s).
 
 Fixpoint upd_nth {A} (n : nat) (f : A -> A) (l : list A) : list A :=
   match l, n with
@@ -319,12 +325,12 @@ Definition offer (pa : params) (item : list event) (w : watcher) : watcher :=
   if w_reg w then
     if chan_len (w_sub w) <? p_hub pa then
       mkW (w_S w) (w_P w) (w_phase w) (w_reg w) (mkChan (c_buf (w_sub w) ++ [item]) (c_closed (w_sub w)))
-          (w_delpend w) (w_ctx w) (w_ctxdone w) (w_filter w) (w_hold w) (w_out w) (w_got w) (w_seen_close w)
-          (w_base w) (w_in w ++ item) (w_catch w) (w_snap w) (w_dropped w) (w_gap w || w_dropped w)
+          (w_delpend w) (w_ctx w) (w_ctxdone w) (w_filter w) (w_hold w) (w_out w) (w_gotR w) (w_seen_close w)
+          (w_base w) (rev_append item (w_inR w)) (w_catch w) (w_snap w) (w_dropped w) (w_gap w || w_dropped w)
     else
       mkW (w_S w) (w_P w) (w_phase w) (w_reg w) (w_sub w)
-          (S (w_delpend w)) (w_ctx w) (w_ctxdone w) (w_filter w) (w_hold w) (w_out w) (w_got w) (w_seen_close w)
-          (w_base w) (w_in w) (w_catch w) (w_snap w) true (w_gap w)
+          (S (w_delpend w)) (w_ctx w) (w_ctxdone w) (w_filter w) (w_hold w) (w_out w) (w_gotR w) (w_seen_close w)
+          (w_base w) (w_inR w) (w_catch w) (w_snap w) true (w_gap w)
   else w.
 
 (* subscriber ids in the iteration order chosen by the label: the listed ones first (once each), then the rest *)
@@ -354,7 +360,7 @@ Definition watch_read (s : sys) (w : watcher) : watcher :=
 
 Definition start_proc (w : watcher) (flt : N) (catch : list (list event)) (snap : list event) : watcher :=
   mkW (w_S w) (w_P w) PhRun (w_reg w) (w_sub w) (w_delpend w) (w_ctx w) (w_ctxdone w) flt None
-      (mkChan catch false) (w_got w) (w_seen_close w) (w_base w) (w_in w) (concat catch) snap
+      (mkChan catch false) (w_gotR w) (w_seen_close w) (w_base w) (w_inR w) (concat catch) snap
       (w_dropped w) (w_gap w).
 
 Definition watch_spawn (pa : params) (s : sys) (w : watcher) : watcher :=
@@ -396,8 +402,8 @@ Definition proc_step (pa : params) (w : watcher) : watcher :=
 
 Definition consume_step (w : watcher) : watcher :=
   match c_buf (w_out w) with
-  | b :: rest => w_set_client w (mkChan rest (c_closed (w_out w))) (w_got w ++ [b]) (w_seen_close w)
-  | [] => if c_closed (w_out w) then w_set_client w (w_out w) (w_got w) true else w
+  | b :: rest => w_set_client w (mkChan rest (c_closed (w_out w))) (b :: w_gotR w) (w_seen_close w)
+  | [] => if c_closed (w_out w) then w_set_client w (w_out w) (w_gotR w) true else w
   end.
 
 (* ------------------------------------------------------------------ step *)
@@ -411,7 +417,7 @@ Definition step (pa : params) (s : sys) (lb : label) : sys :=
       | None =>
           if (N.of_nat (length (s_pending s)) <? p_batch pa) && (we_rev we =? s_committed s + 1) then
             mkSys (we_rev we) (if we_valid we then Some (to_event we) else None) (s_pending s) (s_cache s)
-                  (s_wchan s) (s_ws s) (s_panic s) (s_cached s) (s_hub s) (s_spawned s)
+                  (s_wchan s) (s_ws s) (s_panic s) (s_cachedR s) (s_hubR s) (s_spawned s)
           else s
       end
   | LSeqCache =>
@@ -421,7 +427,7 @@ Definition step (pa : params) (s : sys) (lb : label) : sys :=
           match ring_add (s_cache s) e with
           | None => s_set_panic s
           | Some r' => mkSys (s_committed s) None (s_pending s ++ [e]) r' (s_wchan s) (s_ws s) (s_panic s)
-                             (s_cached s ++ [e]) (s_hub s) (s_spawned s)
+                             (e :: s_cachedR s) (s_hubR s) (s_spawned s)
           end
       end
   | LSeqSend =>
@@ -429,7 +435,7 @@ Definition step (pa : params) (s : sys) (lb : label) : sys :=
       | None, _ :: _ =>
           if N.of_nat (length (s_wchan s)) <? p_wchan pa then
             mkSys (s_committed s) None [] (s_cache s) (s_wchan s ++ [s_pending s]) (s_ws s) (s_panic s)
-                  (s_cached s) (s_hub s) (s_spawned s)
+                  (s_cachedR s) (s_hubR s) (s_spawned s)
           else s
       | _, _ => s
       end
@@ -439,7 +445,7 @@ Definition step (pa : params) (s : sys) (lb : label) : sys :=
       | item :: rest =>
           if existsb send_panics (s_ws s) then s_set_panic s else
           mkSys (s_committed s) (s_cur s) (s_pending s) (s_cache s) rest (map (offer pa item) (s_ws s)) (s_panic s)
-                (s_cached s) (s_hub s ++ item)
+                (s_cachedR s) (rev_append item (s_hubR s))
                 (s_spawned s ++ filter (fun i => match nth_error (s_ws s) i with Some w => would_drop pa w | None => false end)
                                        (arrange order (length (s_ws s))))
       end
@@ -447,7 +453,7 @@ Definition step (pa : params) (s : sys) (lb : label) : sys :=
       upd_w s i (fun w => match w_delpend w with O => w | S n => delete_watcher w n (w_ctxdone w) end)
   | LCtxDelete i =>
       upd_w s i (fun w => if w_ctx w && negb (w_ctxdone w) then delete_watcher w (w_delpend w) true else w)
-  | LWatchSub sr pf => s_set_ws s (s_ws s ++ [new_watcher sr pf (length (s_hub s))])
+  | LWatchSub sr pf => s_set_ws s (s_ws s ++ [new_watcher sr pf (length (s_hubR s))])
   | LWatchRead i => upd_w s i (watch_read s)
   | LWatchSpawn i =>
       match nth_error (s_ws s) i with
